@@ -88,33 +88,32 @@ Theorem C12_crlf : forall (e : eol) (ls : list string) (last : string),
 Proof. exact line_endings_irrelevant. Qed.
 Print Assumptions C12_crlf.
 
-(* the client's override parameters are appended after the base file: they govern - PROVIDED the base text is
-   empty or its last line is terminated (LF, CRLF or CR) ... *)
-Theorem C12_client_override_partial : forall (base : string) (params : list (string * string)) (k : string),
-  terminated base = true ->
+(* the client's override parameters are appended after the base file and govern, for EVERY base text (terminated
+   or not, any line-ending style) and every list of overrides (code after fix e85b257) ... *)
+Theorem C12_client_override : forall (base : string) (params : list (string * string)) (k : string),
   dict_get k (read_text (client_text base params)) =
   match dict_get k (read_text (cat (map param_line params))) with
   | Some e => Some e
   | None => dict_get k (read_text base)
   end.
 Proof. exact client_override. Qed.
-Print Assumptions C12_client_override_partial.
+Print Assumptions C12_client_override.
 
-(* ... and each override then reads as written *)
+(* ... and each override reads as written *)
 Theorem C12_client_override_value : forall (params : list (string * string)) (k v : string),
   Forall (fun p => clean_param p = true) params -> NoDup (map fst params) -> In (k, v) params ->
   option_map e_sval (dict_get k (read_text (cat (map param_line params)))) = Some (strip v).
 Proof. exact client_param_value. Qed.
 Print Assumptions C12_client_override_value.
 
-(* ... which fails for a base file whose last line is not terminated: the first override is glued to that line
-   (GeophiresInputParameters writes base_file.readlines() and then the parameter lines).  FINDING, reproduced on
-   the implementation by tools/props/C12.py (key client-append:base-without-final-newline). *)
-Theorem C12_client_override_refuted : exists (base : string) (params : list (string * string)) (k v : string),
-  In (k, v) params /\ clean_param (k, v) = true /\ dict_get k (read_text (client_text base params)) = None
-  /\ option_map e_sval (dict_get "A" (read_text (client_text base params))) = Some "1B".
+(* the code before the fix (client_text_pinned: overrides written directly after base_file.readlines()) does not:
+   with a base file whose last line is not terminated the first override is glued to that line.  Witness in
+   corpus/C12/client_no_final_newline.json: a regression of the fix is reported with this replay. *)
+Theorem C12_client_override_pinned_refuted : exists (base : string) (params : list (string * string)) (k v : string),
+  In (k, v) params /\ clean_param (k, v) = true /\ dict_get k (read_text (client_text_pinned base params)) = None
+  /\ option_map e_sval (dict_get "A" (read_text (client_text_pinned base params))) = Some "1B".
 Proof. exact client_override_counterexample. Qed.
-Print Assumptions C12_client_override_refuted.
+Print Assumptions C12_client_override_pinned_refuted.
 
 (* every syntactic use of Model.InputParameters in the current source (table regenerated on each run) is blind to
    the order of the keys, except the add-on block and the renaming of one deprecated key *)
@@ -178,7 +177,7 @@ Example C12_example_client_params :
 Proof. split; [repeat constructor | repeat constructor; cbn; intuition discriminate]. Qed.
 
 Example C12_example_client :
-  terminated ("Gradient 1, 50" ++ String CR "") = true /\ terminated "Gradient 1, 50" = false
-  /\ option_map e_sval (dict_get "Gradient 1" (read_text (client_text ("Gradient 1, 50" ++ String CR "") [("Gradient 1", "60")]))) = Some "60"
-  /\ option_map e_sval (dict_get "Gradient 1" (read_text (client_text "Gradient 1, 50" [("Gradient 1", "60")]))) = Some "50Gradient 1".
+  option_map e_sval (dict_get "Gradient 1" (read_text (client_text ("Gradient 1, 50" ++ String CR "") [("Gradient 1", "60")]))) = Some "60"
+  /\ option_map e_sval (dict_get "Gradient 1" (read_text (client_text "Gradient 1, 50" [("Gradient 1", "60")]))) = Some "60"
+  /\ option_map e_sval (dict_get "Gradient 1" (read_text (client_text_pinned "Gradient 1, 50" [("Gradient 1", "60")]))) = Some "50Gradient 1".
 Proof. vm_compute. repeat split; reflexivity. Qed.
